@@ -248,8 +248,19 @@ def transformations(ctx):
         edges = np.asarray(mesh.region.edges, float)
         if kind == "translate":
             kw = {"vector": (rng.uniform(-2, 2, spec.nd) * edges).tolist()}
+            if rng.random() < 0.35:
+                # to the origin (give or take a few whole cells): where the coordinates of
+                # a mesh that came from far away are rounding noise
+                cellv = np.asarray(mesh.cell, float)
+                kw = {"vector": (-np.asarray(mesh.region.pmin, float)
+                                 + rng.integers(-2, 3, spec.nd) * cellv).tolist()}
         elif kind == "scale":
-            f = [float(rng.choice([2, 0.5, -1, -2.5, 3, 0.1])) for _ in range(spec.nd)]
+            # large factors only while the mesh is still near the origin in units of its cell:
+            # beyond ~1e9 cells the coordinates no longer resolve 1e-6 of a cell (rule R7)
+            far = float(np.max(np.maximum(np.abs(mesh.region.pmin), np.abs(mesh.region.pmax))
+                               / np.asarray(mesh.cell, float)))
+            pool = [2, 0.5, -1, -2.5, 3, 0.1] + ([1000.0, 0.001, -300.0] if far < 1e3 else [])
+            f = [float(rng.choice(pool)) for _ in range(spec.nd)]
             f = f[0] if rng.random() < 0.4 else f
             ref = None if rng.random() < 0.5 else (
                 np.asarray(mesh.region.centre, float) + rng.uniform(-3, 3, spec.nd) * edges).tolist()
@@ -287,6 +298,13 @@ def transformations(ctx):
             good = good and err < 1e-6 and np.array_equal(lo, cur[k][0]) and np.array_equal(hi, cur[k][1])
         ctx.check("C14.transform.index_ranges", good, got=got, expected=cur, n=mesh.n,
                   expected_n=n, what=what)
+        for k in mesh.subregions:
+            # the mesh of a named subregion exists after every step, with the parent's cell
+            okn, sub = ctx.expect_ok("C14.transform.named_extraction", mesh.__getitem__, k,
+                                     what=dict(what, name=k))
+            if okn:
+                ctx.check("C14.named_extraction", np.array_equal(sub.n, cur[k][1] - cur[k][0]),
+                          got_n=sub.n, expected_n=cur[k][1] - cur[k][0], after=what)
         ctx.event("transform." + kind)
 
 
